@@ -88,6 +88,14 @@ Definition enc_placed (p : placed) : sexp :=
 Definition enc_setres (r : setres) : sexp :=
   match r with SOk s => SL [SA "ok"; enc_state s] | SErr e => SL [SA "raise"; enc_err e] end.
 
+Definition dec_itemvalue (s : sexp) : option itemvalue :=
+  match s with
+  | SL [SA "tc"; same; st] => match dec_bool same, dec_state st with Some b, Some st => Some (IVTc b st) | _, _ => None end
+  | SL [SA "td"; ks] => option_map IVTd (dec_list dec_str ks)
+  | SA "number" => Some IVNumber | SA "tensor" => Some IVTensor | SA "other" => Some IVOther
+  | _ => None
+  end.
+
 Definition dispatch (cmd : string) (args : list sexp) : option sexp :=
   match cmd, args with
   | "dispatch", [e; SA n] => option_map (fun e => enc_disp (C15_TCWrap.dispatch e install_steps n)) (dec_env e)
@@ -120,6 +128,11 @@ Definition dispatch (cmd : string) (args : list sexp) : option sexp :=
       | Some f, Some lk, Some ac, Some nc, Some h, Some s, Some v =>
           Some (enc_setres (set_field f lk {| o_autocast := ac; o_nocast := nc |} h s k v (Z.to_nat id)))
       | _, _, _, _, _, _, _ => None
+      end
+  | "setitem", [kl; s; v] =>
+      match dec_bool kl, dec_state s, dec_itemvalue v with
+      | Some kl, Some s, Some v => Some (enc_setres (setitem (fun _ j => j) kl s v))
+      | _, _, _ => None
       end
   | "wf", [f; s] =>
       match dec_list dec_str f, dec_state s with Some f, Some s => Some (enc_bool (wfb f s)) | _, _ => None end
